@@ -18,7 +18,7 @@ RULE = ("model trees from four sources: read from generated Hy source (random sp
         "form and distinct compound sub-form of the repository's own *.hy files; nesting <= 5. "
         "Non-trivial = the tree has >= 3 model types or an attribute-carrying node (brackets, "
         "conversion, expression, is_tstring); distinct by rendered case.")
-FLOOR = {"quick": 2000, "thorough": 2000}
+FLOOR = {"quick": 1000, "thorough": 2000}
 BUDGET = {"quick": 25, "thorough": 480}
 CASE_TIMEOUT = 20
 NEEDS_EVENTS = True
